@@ -16,13 +16,17 @@
 -/
 namespace Psutil.C01
 
-/-- one incarnation of a PID; `start` (clock ticks since boot, field 22 of /proc/pid/stat) is unique
-    per incarnation because the kernel clock advances at every spawn — psutil's documented
-    assumption that a PID is not recycled within one clock tick -/
+/-- one incarnation of a PID.  `start` identifies the incarnation (the instant it was created: the kernel
+    clock advances at every spawn, so no two incarnations share it — SPEC side: `PObj.ghost`, `Eff.owner`).
+    `stamp` is what psutil can see of it: field 22 of /proc/pid/stat, in clock ticks.  An ordinary `spawn`
+    stamps `stamp = start` (one incarnation per tick — psutil's documented assumption that a PID is not
+    recycled within one clock tick); `spawnSameTick` is the event that breaks the assumption: a new
+    incarnation whose stat file shows the stamp of the previous one. -/
 structure Inst where
   pid : Nat
   start : Nat
   zombie : Bool
+  stamp : Nat
   deriving DecidableEq, Repr
 
 /-- the two errnos CPython turns into `PermissionError` -/
@@ -47,6 +51,9 @@ inductive KEv
   | setBtime (b : Nat)       -- system clock step: the published boot time changes
   | perm (pid : Nat) (e : Option Errno)   -- from now on the kernel refuses effects on `pid` with errno `e` / allows them
   | hide (pid : Nat) (on : Bool)          -- `/proc/pid/stat` becomes unreadable / readable again
+  | spawnSameTick (pid : Nat)             -- a new incarnation takes the free PID within the SAME clock tick as the
+                                          -- previous spawn: field 22 of its stat file repeats the previous stamp
+                                          -- (excluded by every theorem's hypothesis `HistOK`; `C01_same_tick_counterexample`)
   deriving DecidableEq, Repr
 
 def Kernel.find (k : Kernel) (pid : Nat) : Option Inst := k.procs.find? (·.pid == pid)
@@ -58,7 +65,11 @@ def Kernel.apply (k : Kernel) : KEv → Kernel
   | .spawn pid =>
     match k.find pid with
     | some _ => k                                              -- PID busy: nothing happens
-    | none => { k with procs := ⟨pid, k.clock, false⟩ :: k.procs, clock := k.clock + 1 }
+    | none => { k with procs := ⟨pid, k.clock, false, k.clock⟩ :: k.procs, clock := k.clock + 1 }
+  | .spawnSameTick pid =>
+    match k.find pid with
+    | some _ => k
+    | none => { k with procs := ⟨pid, k.clock, false, k.clock - 1⟩ :: k.procs, clock := k.clock + 1 }
   | .exit pid => { k with procs := k.procs.map fun x => if x.pid == pid then { x with zombie := true } else x }
   | .reap pid => { k with procs := k.procs.filter fun x => !(x.pid == pid) }
   | .tick n => { k with clock := k.clock + n }
@@ -79,7 +90,9 @@ structure Cfg where
   clk : Nat                    -- CLOCK_TICKS
   goneRaises : Bool            -- `_raise_if_pid_reused` raises NoSuchProcess when `_gone` is already set
   bootWriteOnce : Bool         -- `boot_time()` assigns BOOT_TIME only while it is unset
-  createUsesCache : Bool       -- `create_time()` computes `BOOT_TIME or boot_time()` (not a fresh `boot_time()`)
+  createUsesCache : Bool       -- `create_time()` takes the cached `BOOT_TIME` when there is one (not a fresh `boot_time()`)
+  createNoneTest : Bool        -- … and decides "there is one" by `BOOT_TIME is not None` (true) / by truthiness,
+                               -- `BOOT_TIME or boot_time()` (false: a cached 0.0 counts as unset — finding C02-boottime-zero)
   guardSignal : Bool           -- `_send_signal` calls `_raise_if_pid_reused()` before `os.kill`
   guardNice : Bool
   guardIonice : Bool
@@ -100,7 +113,7 @@ structure Cfg where
 /-- a `psutil.Process` object -/
 structure PObj where
   pid : Nat
-  ident : Option Nat      -- 2nd component of `_ident`, scaled by CLOCK_TICKS: `start + clk·boot` (exact);
+  ident : Option Nat      -- 2nd component of `_ident`, scaled by CLOCK_TICKS: `stamp + clk·boot` (exact);
                           -- `none` = `(pid, None)`: `_init` got AccessDenied from `create_time()` and went on
   ctime : Option Nat      -- memoised `_create_time` (set by `_init` together with `_ident`, or by a later `create_time()`)
   gone : Bool
@@ -184,11 +197,12 @@ def St.init (btime : Nat) : St := ⟨⟨[], 0, btime, [], []⟩, ⟨none, [], []
 def bootTimeCall (cfg : Cfg) (k : Kernel) (ps : Ps) : Ps × Nat :=
   (if cfg.bootWriteOnce && ps.bootTime.isSome then ps else { ps with bootTime := some k.btime }, k.btime)
 
-/-- `bt = BOOT_TIME or boot_time()` -/
+/-- `bt = BOOT_TIME or boot_time()` (`createNoneTest = false`: a cached 0.0 is falsy, `boot_time()` is asked
+    again) / `bt = BOOT_TIME if BOOT_TIME is not None else boot_time()` (`createNoneTest = true`) -/
 def bootForCreate (cfg : Cfg) (k : Kernel) (ps : Ps) : Ps × Nat :=
   if cfg.createUsesCache then
     match ps.bootTime with
-    | some b => if b ≠ 0 then (ps, b) else bootTimeCall cfg k ps
+    | some b => if cfg.createNoneTest = true ∨ b ≠ 0 then (ps, b) else bootTimeCall cfg k ps
     | none => bootTimeCall cfg k ps
   else bootTimeCall cfg k ps
 
@@ -203,7 +217,7 @@ def mkObj (cfg : Cfg) (k : Kernel) (ps : Ps) (pid : Nat) : Ps × Option PObj :=
     if k.isHidden pid then (ps, some ⟨pid, none, none, false, false, x.start⟩)
     else
       let r := bootForCreate cfg k ps
-      (r.1, some ⟨pid, some (x.start + cfg.clk * r.2), some (x.start + cfg.clk * r.2), false, false, x.start⟩)
+      (r.1, some ⟨pid, some (x.stamp + cfg.clk * r.2), some (x.stamp + cfg.clk * r.2), false, false, x.start⟩)
 
 def setObj (ps : Ps) (i : Nat) (o : PObj) : Ps := { ps with objs := ps.objs.set i o }
 
@@ -326,7 +340,7 @@ def createTimeM (cfg : Cfg) (k : Kernel) (ps : Ps) (o : PObj) : MRes :=
       if k.isHidden o.pid then ⟨ps, o, none, .exc (.accessDenied o.pid)⟩
       else
         let r := bootForCreate cfg k ps
-        ⟨r.1, { o with ctime := some (x.start + cfg.clk * r.2) }, none, .nat (x.start + cfg.clk * r.2)⟩
+        ⟨r.1, { o with ctime := some (x.stamp + cfg.clk * r.2) }, none, .nat (x.stamp + cfg.clk * r.2)⟩
 
 def isRunningM (cfg : Cfg) (k : Kernel) (ps : Ps) (o : PObj) : MRes :=
   let r := isRunningO cfg k ps o
